@@ -22,6 +22,8 @@ fi
 
 repo_hash=$( (cd "$REPO" && find . -path ./.git -prune -o -type f \( -name '*.go' -o -name 'go.mod' -o -name 'go.sum' \) -print | grep -v '^./ui/web/' | LC_ALL=C sort | xargs sha256sum) | sha256sum | cut -c1-16)
 key="$repo_hash-$fw_hash"
+RACEFLAG=""
+if [ -n "${CRSIM_RACE:-}" ]; then key="$key-race"; RACEFLAG="-race"; fi
 out="$CACHE/build/$key"
 if [ -x "$out/crsim.test" ]; then echo "$out/crsim.test"; exit 0; fi
 
@@ -49,7 +51,7 @@ PY
 cp "$REPO/go.sum" "$scratch/sim/go.sum"
 [ -f "$VERIF/sim/go.sum.extra" ] && cat "$VERIF/sim/go.sum.extra" >> "$scratch/sim/go.sum"
 mkdir -p "$out"
-(cd "$scratch/sim" && $GO test -c -trimpath -overlay "$CACHE/rtpatch/overlay.json" -o "$out/crsim.test.tmp" . ) >&2 || { rm -rf "$out"; fail "simulator does not build against this tree"; }
+(cd "$scratch/sim" && $GO test -c $RACEFLAG -trimpath -overlay "$CACHE/rtpatch/overlay.json" -o "$out/crsim.test.tmp" . ) >&2 || { rm -rf "$out"; fail "simulator does not build against this tree"; }
 mv "$out/crsim.test.tmp" "$out/crsim.test"
 echo "$repo_hash" > "$out/repo_hash"
 # keep the cache small: drop all but the 6 most recent builds
